@@ -2,6 +2,7 @@ package main
 
 import (
 	"fmt"
+	"path/filepath"
 	"go/ast"
 	"go/token"
 	"go/types"
@@ -105,6 +106,9 @@ func loadWorld(dir string, overlay map[string][]byte) (*World, error) {
 		}
 	}
 	if err := w.parseContracts(pkgs); err != nil {
+		return nil, err
+	}
+	if err := w.parseLibSpecs("/verif/libspec"); err != nil {
 		return nil, err
 	}
 	return w, nil
@@ -277,4 +281,42 @@ func (w *World) scanGlobalUses(fn *ssa.Function, g *ssa.Global, stores *[]*ssa.S
 	for _, a := range fn.AnonFuncs {
 		w.scanGlobalUses(a, g, stores, ok)
 	}
+}
+
+// parseLibSpecs reads loop invariants / contracts for dependency functions that are executed from their source.
+// Each file starts with "//@ package <import path>".
+func (w *World) parseLibSpecs(dir string) error {
+	files, _ := filepath.Glob(filepath.Join(dir, "*.spec"))
+	sort.Strings(files)
+	for _, f := range files {
+		b, err := os.ReadFile(f)
+		if err != nil {
+			return err
+		}
+		var sp *ssa.Package
+		var lines, poss []string
+		for n, l := range strings.Split(string(b), "\n") {
+			l = strings.TrimSpace(l)
+			if !strings.HasPrefix(l, "//@") {
+				continue
+			}
+			l = strings.TrimPrefix(l, "//@")
+			if t := strings.TrimSpace(l); strings.HasPrefix(t, "package ") {
+				sp = w.pkgs[strings.TrimSpace(strings.TrimPrefix(t, "package "))]
+				if sp == nil {
+					return fmt.Errorf("%s: package %s is not part of the program", f, t)
+				}
+				continue
+			}
+			lines = append(lines, l)
+			poss = append(poss, fmt.Sprintf("%s:%d", strings.TrimPrefix(f, "/verif/"), n+1))
+		}
+		if sp == nil {
+			return fmt.Errorf("%s: missing //@ package directive", f)
+		}
+		if err := w.parseContractLines(sp, lines, poss); err != nil {
+			return fmt.Errorf("%s: %w", f, err)
+		}
+	}
+	return nil
 }
